@@ -712,19 +712,26 @@ sqf::runtime::runtime::result sqf::runtime::runtime::execute(sqf::runtime::runti
 
 ::sqf::runtime::value sqf::runtime::runtime::evaluate_expression(std::string view, bool& success, bool request_halt)
 {
+    // An expression under evaluation may itself ask for an evaluation (preprocess__ of a text that uses __EVAL):
+    // the evaluation slot is this thread's already, waiting for it would wait forever.
+    const bool nested = m_evaluate_halt && m_evaluate_thread.load() == std::this_thread::get_id();
     // One evaluation at a time: take the evaluation slot.
     bool expected = false;
-    while (!m_evaluate_halt.compare_exchange_strong(expected, true))
+    while (!nested && !m_evaluate_halt.compare_exchange_strong(expected, true))
     {
         expected = false;
         SQFVM_VERIF_POINT("spin:eval.wait_halt_free");
     }
+    if (!nested) { m_evaluate_thread = std::this_thread::get_id(); }
     SQFVM_VERIF_POINT("eval.set_halt");
     // The expression runs on this thread, so no other thread may execute meanwhile: either an executor
     // has parked itself in perform_evaluate (state evaluating), or there is none and this thread takes
     // the executor's place for the duration of the evaluation.
     bool owns_run = false;
-    if (request_halt)
+    if (nested)
+    { // runs in place of the evaluation that asked for it
+    }
+    else if (request_halt)
     {
         while (true)
         {
@@ -748,7 +755,9 @@ sqf::runtime::runtime::result sqf::runtime::runtime::execute(sqf::runtime::runti
         m_run_timestamp = std::chrono::system_clock::now();
     }
     auto finish = [&]() {
+        if (nested) { return; }
         if (owns_run) { m_run_atomic = false; }
+        m_evaluate_thread = std::thread::id();
         m_evaluate_halt = false;
     };
     auto& sqf_parser = parser_sqf();
